@@ -219,4 +219,529 @@ theorem search_append_frozen (fix : Bool) (V width len : Nat) (own extra : List 
   apply finish_rel width _ _ (hs hne) hl
   exact loop_frozen fix V width len _ extra _ _ (by omega) (hs hne) (rel_refl _)
 
+
+/-! ### never NaN (repaired code) -/
+
+def XR.clean : XR → Bool
+  | .fin _ => true
+  | .negInf => true
+  | _ => false
+
+theorem fin_of_isFin {x : XR} (h : x.isFin = true) : ∃ q, x = .fin q := by
+  cases x <;> simp [XR.isFin] at h ⊢
+
+theorem clean_of_isFin {x : XR} (h : x.isFin = true) : x.clean = true := by
+  cases x <;> simp [XR.isFin, XR.clean] at h ⊢
+
+theorem add_isFin {x y : XR} (hx : x.isFin = true) (hy : y.isFin = true) : (x + y).isFin = true := by
+  obtain ⟨a, rfl⟩ := fin_of_isFin hx
+  obtain ⟨b, rfl⟩ := fin_of_isFin hy
+  rfl
+
+theorem mul_isFin {x y : XR} (hx : x.isFin = true) (hy : y.isFin = true) : (x * y).isFin = true := by
+  obtain ⟨a, rfl⟩ := fin_of_isFin hx
+  obtain ⟨b, rfl⟩ := fin_of_isFin hy
+  rfl
+
+theorem mulBool_isFin {x : XR} (hx : x.isFin = true) (b : Bool) : (XR.mulBool x b).isFin = true := by
+  unfold XR.mulBool
+  apply mul_isFin hx
+  cases b <;> rfl
+
+theorem getX_isFin (l : List XR) (h : ∀ x ∈ l, x.isFin = true) (i : Nat) : (getX l i).isFin = true := by
+  unfold getX
+  rw [List.getD_eq_getElem?_getD]
+  by_cases hi : i < l.length
+  · rw [List.getElem?_eq_getElem hi]; exact h _ (List.getElem_mem hi)
+  · rw [List.getElem?_eq_none (by omega)]; rfl
+
+theorem getX_clean (l : List XR) (h : ∀ x ∈ l, x.clean = true) (i : Nat) : (getX l i).clean = true := by
+  unfold getX
+  rw [List.getD_eq_getElem?_getD]
+  by_cases hi : i < l.length
+  · rw [List.getElem?_eq_getElem hi]; exact h _ (List.getElem_mem hi)
+  · rw [List.getElem?_eq_none (by omega)]; rfl
+
+theorem get2X_isFin (m : List (List XR)) (h : ∀ r ∈ m, ∀ x ∈ r, x.isFin = true) (i j : Nat) :
+    (get2X m i j).isFin = true := by
+  unfold get2X
+  apply getX_isFin
+  rw [List.getD_eq_getElem?_getD]
+  by_cases hi : i < m.length
+  · rw [List.getElem?_eq_getElem hi]; exact h _ (List.getElem_mem hi)
+  · rw [List.getElem?_eq_none (by omega)]; intro x hx; simp at hx
+
+theorem sum_isFin (l : List XR) (h : ∀ x ∈ l, x.isFin = true) : (XR.sum l).isFin = true := by
+  unfold XR.sum
+  have : ∀ (acc : XR), acc.isFin = true → (l.foldl XR.add acc).isFin = true := by
+    induction l with
+    | nil => intro acc ha; simpa using ha
+    | cons a l ih =>
+      intro acc ha
+      simp only [List.foldl_cons]
+      exact ih (fun x hx => h x (by simp [hx])) _ (add_isFin (x := acc) (y := a) ha (h a (by simp)))
+  exact this _ rfl
+
+/-- clean + clean total not -inf ⇒ both finite -/
+theorem fin_of_tot {x y : XR} (hx : x.clean = true) (hy : y.clean = true) (h : (x + y).isNegInf = false) :
+    x.isFin = true ∧ y.isFin = true := by
+  cases x <;> cases y <;> first
+    | exact ⟨rfl, rfl⟩
+    | (exfalso; revert hx; simp [XR.clean]; done)
+    | (exfalso; revert hy; simp [XR.clean]; done)
+    | (exfalso; revert h; simp [XR.isNegInf, HAdd.hAdd, Add.add, XR.add]; done)
+
+theorem getX_map_range (n : Nat) (g : Nat → XR) (k : Nat) (h : k < n) :
+    getX ((List.range n).map g) k = g k := getD_map_range n g k _ h
+
+theorem getB_map_range (n : Nat) (g : Nat → Bool) (k : Nat) (h : k < n) :
+    getB ((List.range n).map g) k = g k := getD_map_range n g k _ h
+
+theorem advance_clean (V width : Nat) (ext : List (List XR)) (nonext : List XR)
+    (blank : XR) (st : State) (sel : Option (List Nat))
+    (hnb : ∀ x ∈ st.nb, x.clean = true) (hb : ∀ x ∈ st.b, x.clean = true)
+    (hext : ∀ r ∈ ext, ∀ x ∈ r, x.isFin = true) (hne : ∀ x ∈ nonext, x.isFin = true)
+    (hbl : blank.isFin = true) :
+    let o := (advance true V width ext nonext blank st sel).st
+    (∀ x ∈ o.nb, x.clean = true) ∧ (∀ x ∈ o.b, x.clean = true) := by
+  unfold advance
+  extract_lets Kp ks vs K tm1 tot0 invalid inv nbP bP tot isP last nbExt0 bNon nbNon0 toMatch exact nbNon1 hasMatch nbExt nbNon flatExt cand sel' js ind isNon src extTok prefLens yNext lensNext nbNext bNext lastNext isPNext rem padRow
+  have hinv : ∀ k, k < Kp → inv k = false → (getX st.nb k).isFin = true ∧ (getX st.b k).isFin = true := by
+    intro k hk hi
+    have e1 : inv k = (getX st.nb k + getX st.b k).isNegInf := by
+      show getB invalid k = _
+      simp only [invalid, ks]
+      rw [getB_map_range _ _ _ hk]
+      simp only [tot0, ks, Bool.true_and]
+      rw [getX_map_range _ _ _ hk]
+    rw [e1] at hi
+    exact fin_of_tot (getX_clean _ hnb k) (getX_clean _ hb k) hi
+  have F_nbP : ∀ x ∈ nbP, x.isFin = true := by
+    intro x hx
+    simp only [nbP, ks, List.mem_map, List.mem_range] at hx
+    obtain ⟨k, hk, rfl⟩ := hx
+    split
+    · rfl
+    · rename_i h; exact (hinv k hk (by simpa using h)).1
+  have F_bP : ∀ x ∈ bP, x.isFin = true := by
+    intro x hx
+    simp only [bP, ks, List.mem_map, List.mem_range] at hx
+    obtain ⟨k, hk, rfl⟩ := hx
+    split
+    · rfl
+    · rename_i h; exact (hinv k hk (by simpa using h)).2
+  have F_tot : ∀ x ∈ tot, x.isFin = true := by
+    intro x hx
+    simp only [tot, ks, List.mem_map, List.mem_range] at hx
+    obtain ⟨k, hk, rfl⟩ := hx
+    split
+    · rfl
+    · rename_i h
+      simp only [tot0, ks]
+      rw [getX_map_range _ _ _ hk]
+      have := hinv k hk (by simpa using h)
+      exact add_isFin this.1 this.2
+  have F_nbExt0 : ∀ r ∈ nbExt0, ∀ x ∈ r, x.isFin = true := by
+    intro r hr x hx
+    simp only [nbExt0, ks, List.mem_map, List.mem_range] at hr
+    obtain ⟨k, _, rfl⟩ := hr
+    simp only [vs, List.mem_map, List.mem_range] at hx
+    obtain ⟨v, _, rfl⟩ := hx
+    apply mul_isFin _ (get2X_isFin ext hext _ _)
+    apply add_isFin _ (getX_isFin bP F_bP _)
+    split
+    · rfl
+    · exact getX_isFin nbP F_nbP _
+  have F_bNon : ∀ x ∈ bNon, x.isFin = true := by
+    intro x hx
+    simp only [bNon, ks, List.mem_map, List.mem_range] at hx
+    obtain ⟨k, _, rfl⟩ := hx
+    exact mul_isFin (getX_isFin tot F_tot _) hbl
+  have F_nbNon0 : ∀ x ∈ nbNon0, x.isFin = true := by
+    intro x hx
+    simp only [nbNon0, ks, List.mem_map, List.mem_range] at hx
+    obtain ⟨k, _, rfl⟩ := hx
+    exact mul_isFin (getX_isFin nbP F_nbP _) (getX_isFin nonext hne _)
+  have F_nbNon1 : ∀ x ∈ nbNon1, x.isFin = true := by
+    intro x hx
+    simp only [nbNon1, ks, List.mem_map, List.mem_range] at hx
+    obtain ⟨k', _, rfl⟩ := hx
+    apply add_isFin (getX_isFin nbNon0 F_nbNon0 _)
+    apply sum_isFin
+    intro y hy
+    simp only [List.mem_map, List.mem_range] at hy
+    obtain ⟨k, _, rfl⟩ := hy
+    split
+    · exact get2X_isFin nbExt0 F_nbExt0 _ _
+    · rfl
+  have C_nbNon : ∀ x ∈ nbNon, x.clean = true := by
+    intro x hx
+    simp only [nbNon, ks, List.mem_map, List.mem_range] at hx
+    obtain ⟨k, _, rfl⟩ := hx
+    split
+    · rfl
+    · exact clean_of_isFin (getX_isFin nbNon1 F_nbNon1 _)
+  have C_flat : ∀ x ∈ flatExt, x.clean = true := by
+    intro x hx
+    simp only [flatExt, List.mem_flatten] at hx
+    obtain ⟨r, hr, hx⟩ := hx
+    simp only [nbExt, ks, List.mem_map, List.mem_range] at hr
+    obtain ⟨k, _, rfl⟩ := hr
+    simp only [vs, List.mem_map, List.mem_range] at hx
+    obtain ⟨v, _, rfl⟩ := hx
+    split
+    · rfl
+    · exact clean_of_isFin (get2X_isFin nbExt0 F_nbExt0 _ _)
+  constructor
+  · intro x hx
+    rcases List.mem_append.1 hx with hx | hx
+    · simp only [nbNext, js, List.mem_map, List.mem_range] at hx
+      obtain ⟨j, _, rfl⟩ := hx
+      split
+      · exact getX_clean nbNon C_nbNon _
+      · exact getX_clean flatExt C_flat _
+    · rw [List.eq_of_mem_replicate hx]; rfl
+  · intro x hx
+    rcases List.mem_append.1 hx with hx | hx
+    · simp only [bNext, js, List.mem_map, List.mem_range] at hx
+      obtain ⟨j, _, rfl⟩ := hx
+      exact clean_of_isFin (mulBool_isFin (getX_isFin bNon F_bNon _) _)
+    · rw [List.eq_of_mem_replicate hx]; rfl
+
+
+theorem add_clean {x y : XR} (hx : x.clean = true) (hy : y.clean = true) : (x + y).clean = true := by
+  cases x <;> cases y <;> first
+    | rfl
+    | (exfalso; revert hx; simp [XR.clean]; done)
+    | (exfalso; revert hy; simp [XR.clean]; done)
+
+/-- all probabilities handed to one call of the step function are finite numbers -/
+def FrameFin (f : FrameIn) : Prop :=
+  (∀ r ∈ f.ext, ∀ x ∈ r, x.isFin = true) ∧ (∀ x ∈ f.nonext, x.isFin = true) ∧ f.blank.isFin = true
+
+def CleanState (st : State) : Prop := (∀ x ∈ st.nb, x.clean = true) ∧ (∀ x ∈ st.b, x.clean = true)
+
+theorem loopStep_clean (V width : Nat) (valid : Bool) (st : State) (f : FrameIn) (hf : FrameFin f)
+    (hc : CleanState st) : CleanState (loopStep true V width valid st f).1 := by
+  cases valid with
+  | true =>
+    have : (loopStep true V width true st f).1 = (advance true V width f.ext f.nonext f.blank st f.sel).st := by
+      simp [loopStep]
+    rw [this]
+    exact advance_clean V width f.ext f.nonext f.blank st f.sel hc.1 hc.2 hf.1 hf.2.1 hf.2.2
+  | false =>
+    simp only [loopStep, Bool.false_eq_true, if_false, CleanState]
+    constructor
+    · intro x hx
+      rcases List.mem_append.1 hx with hx | hx
+      · exact hc.1 x hx
+      · rw [List.eq_of_mem_replicate hx]; rfl
+    · intro x hx
+      rcases List.mem_append.1 hx with hx | hx
+      · exact hc.2 x hx
+      · rw [List.eq_of_mem_replicate hx]; rfl
+
+theorem loop_clean (V width len : Nat) :
+    ∀ (fs : List FrameIn) (t : Nat) (st : State), (∀ f ∈ fs, FrameFin f) → CleanState st →
+      CleanState (loop true V width len t st fs).1
+  | [], _, st, _, hc => by simpa [loop] using hc
+  | f :: fs, t, st, hf, hc => by
+    simp only [loop]
+    exact loop_clean V width len fs (t + 1) _ (fun g hg => hf g (by simp [hg]))
+      (loopStep_clean V width _ st f (hf f (by simp)) hc)
+
+theorem finish_clean (width : Nat) (st : State) (hc : CleanState st) :
+    ∀ x ∈ (finish width st).probs, x.clean = true := by
+  have base : ∀ x ∈ (List.range st.nb.length).map (fun k => getX st.nb k + getX st.b k), x.clean = true := by
+    intro x hx
+    simp only [List.mem_map, List.mem_range] at hx
+    obtain ⟨k, _, rfl⟩ := hx
+    exact add_clean (getX_clean _ hc.1 k) (getX_clean _ hc.2 k)
+  intro x hx
+  simp only [finish] at hx
+  split at hx
+  · rcases List.mem_append.1 hx with hx | hx
+    · exact base x hx
+    · rw [List.eq_of_mem_replicate hx]; rfl
+  · exact base x hx
+
+theorem search_clean (V width len : Nat) (frames : List FrameIn) (hf : ∀ f ∈ frames, FrameFin f) :
+    ∀ x ∈ (search true V width len frames).1.probs, x.clean = true := by
+  have e : (search true V width len frames).1 = finish width (loop true V width len 0 initState frames).1 := by
+    simp [search]
+  rw [e]
+  apply finish_clean
+  apply loop_clean V width len frames 0 initState hf
+  constructor
+  · intro x hx
+    have : x = XR.zero := by simpa [initState] using hx
+    rw [this]; rfl
+  · intro x hx
+    have : x = XR.one := by simpa [initState] using hx
+    rw [this]; rfl
+
+
+/-! ### order of the output (repaired code) -/
+
+theorem mul_one' (x : XR) : x * XR.one = x := by
+  cases x with
+  | fin a => show XR.fin (a * 1) = XR.fin a; rw [Rat.mul_one]
+  | negInf => show XR.infTimes false 1 = XR.negInf; decide +kernel
+  | posInf => show XR.infTimes true 1 = XR.posInf; decide +kernel
+  | nan => rfl
+
+theorem add_fin_zero (x : XR) : x + XR.fin 0 = x := by
+  cases x with
+  | fin a => show XR.fin (a + 0) = XR.fin a; rw [Rat.add_zero]
+  | negInf => rfl
+  | posInf => rfl
+  | nan => rfl
+
+theorem fin_mul_zero {x : XR} (h : x.isFin = true) : XR.mulBool x false = XR.fin 0 := by
+  obtain ⟨a, rfl⟩ := fin_of_isFin h
+  show XR.fin (a * 0) = XR.fin 0
+  rw [Rat.mul_zero]
+
+theorem length_flatten_map_range {α} (n m : Nat) (g : Nat → Nat → α) :
+    (((List.range n).map (fun k => (List.range m).map (g k))).flatten).length = n * m := by
+  induction n with
+  | zero => simp
+  | succ n ih =>
+    rw [List.range_succ, List.map_append, List.flatten_append, List.length_append, ih]
+    simp [Nat.succ_mul]
+
+theorem nonIncr_append_negInf (l : List XR) (n : Nat) (h : nonIncr l = true) :
+    nonIncr (l ++ List.replicate n XR.negInf) = true := by
+  induction l with
+  | nil =>
+    induction n with
+    | zero => rfl
+    | succ n ih =>
+      cases n with
+      | zero => rfl
+      | succ n =>
+        simp only [List.nil_append, List.replicate_succ] at ih ⊢
+        simp only [nonIncr, XR.le, Bool.true_and]
+        exact ih
+  | cons a l ih =>
+    cases l with
+    | nil =>
+      cases n with
+      | zero => rfl
+      | succ n =>
+        have := ih rfl
+        simp only [List.nil_append, List.replicate_succ, List.cons_append] at this ⊢
+        simp only [nonIncr, this, Bool.and_true]
+        cases a <;> rfl
+    | cons b l =>
+      simp only [nonIncr, Bool.and_eq_true] at h
+      simp only [List.cons_append, nonIncr, Bool.and_eq_true]
+      exact ⟨h.1, ih h.2⟩
+
+
+/-- repaired step: the total mass of output slot `j` is the candidate total that `topk` selected for it -/
+theorem advance_total (V width : Nat) (ext : List (List XR)) (nonext : List XR)
+    (blank : XR) (st : State) (s : List Nat)
+    (hnb : ∀ x ∈ st.nb, x.clean = true) (hb : ∀ x ∈ st.b, x.clean = true)
+    (hbl : blank.isFin = true)
+    (j : Nat) (hj : j < min width (st.nb.length * (V + 1)))
+    (hs : getN s j < st.nb.length * V + st.nb.length) :
+    let o := advance true V width ext nonext blank st (some s)
+    getX o.st.nb j + getX o.st.b j = getX o.cand (getN s j) := by
+  unfold advance
+  extract_lets Kp ks vs K tm1 tot0 invalid inv nbP bP tot isP last nbExt0 bNon nbNon0 toMatch exact nbNon1 hasMatch nbExt nbNon flatExt cand sel' js ind isNon src extTok prefLens yNext lensNext nbNext bNext lastNext isPNext rem padRow
+  have hinv : ∀ k, k < Kp → inv k = false → (getX st.nb k).isFin = true ∧ (getX st.b k).isFin = true := by
+    intro k hk hi
+    have e1 : inv k = (getX st.nb k + getX st.b k).isNegInf := by
+      show getB invalid k = _
+      simp only [invalid, ks]
+      rw [getB_map_range _ _ _ hk]
+      simp only [tot0, ks, Bool.true_and]
+      rw [getX_map_range _ _ _ hk]
+    rw [e1] at hi
+    exact fin_of_tot (getX_clean _ hnb k) (getX_clean _ hb k) hi
+  have F_tot : ∀ x ∈ tot, x.isFin = true := by
+    intro x hx
+    simp only [tot, ks, List.mem_map, List.mem_range] at hx
+    obtain ⟨k, hk, rfl⟩ := hx
+    split
+    · rfl
+    · rename_i h
+      simp only [tot0, ks]
+      rw [getX_map_range _ _ _ hk]
+      have := hinv k hk (by simpa using h)
+      exact add_isFin this.1 this.2
+  have F_bNon : ∀ x ∈ bNon, x.isFin = true := by
+    intro x hx
+    simp only [bNon, ks, List.mem_map, List.mem_range] at hx
+    obtain ⟨k, _, rfl⟩ := hx
+    exact mul_isFin (getX_isFin tot F_tot _) hbl
+  have hflat : flatExt.length = Kp * V := by
+    simp only [flatExt, nbExt, ks, vs]
+    exact length_flatten_map_range _ _ _
+  have hjK : j < K := hj
+  have hsel : sel' = s := rfl
+  have hind : ind j = getN s j := by simp only [ind, hsel]
+  show getX (nbNext ++ List.replicate rem XR.negInf) j + getX (bNext ++ List.replicate rem XR.negInf) j
+      = getX cand (getN sel' j)
+  have hnbL : nbNext.length = K := by simp [nbNext, js]
+  have hbL : bNext.length = K := by simp [bNext, js]
+  unfold getX
+  rw [getD_append_left' _ _ _ _ (by omega), getD_append_left' _ _ _ _ (by omega)]
+  simp only [nbNext, bNext, js]
+  rw [getD_map_range _ _ _ _ hjK, getD_map_range _ _ _ _ hjK]
+  have hisNon : getB isNon j = decide (Kp * V ≤ ind j) := by
+    simp only [isNon, js]; exact getB_map_range _ _ _ hjK
+  have hsrc : getN src j = if Kp * V ≤ ind j then ind j - Kp * V else ind j / V := by
+    simp only [src, js]; exact getD_map_range _ _ _ _ hjK
+  rw [hisNon, hsrc, hsel, ← hind]
+  by_cases h : Kp * V ≤ ind j
+  · -- non-extending candidate
+    simp only [h, decide_true, if_true]
+    have hs' : getN s j < Kp * V + Kp := hs
+    have hk : ind j - Kp * V < Kp := by rw [hind]; omega
+    have e : cand.getD (ind j) XR.zero = getX nbNon (ind j - Kp * V) + getX bNon (ind j - Kp * V) := by
+      simp only [cand]
+      rw [List.getD_eq_getElem?_getD, List.getElem?_append_right (by omega), hflat]
+      simp only [ks]
+      rw [← List.getD_eq_getElem?_getD]
+      exact getD_map_range _ _ _ _ hk
+    rw [e]
+    show _ + (getX bNon (ind j - Kp * V)) * XR.one = _
+    rw [mul_one']
+  · -- extending candidate
+    simp only [h, decide_false, if_false]
+    have hlt : ind j < Kp * V := by omega
+    have hmin : min (ind j) (Kp * V - 1) = ind j := by omega
+    rw [hmin]
+    rw [fin_mul_zero (getX_isFin bNon F_bNon _)]
+    have e : cand.getD (ind j) XR.zero = flatExt.getD (ind j) XR.zero := by
+      simp only [cand]
+      exact getD_append_left' _ _ _ _ (by omega)
+    rw [e]
+    exact add_fin_zero _
+
+
+theorem nonIncr_iff (l : List XR) :
+    nonIncr l = true ↔ ∀ i, i + 1 < l.length → XR.le (getX l (i + 1)) (getX l i) = true := by
+  induction l with
+  | nil => simp [nonIncr]
+  | cons a l ih =>
+    cases l with
+    | nil => simp [nonIncr]
+    | cons b r =>
+      simp only [nonIncr, Bool.and_eq_true, ih]
+      constructor
+      · rintro ⟨h1, h2⟩ i hi
+        cases i with
+        | zero => simpa [getX] using h1
+        | succ i =>
+          have := h2 i (by simp at hi ⊢; omega)
+          simpa [getX] using this
+      · intro h
+        refine ⟨by simpa [getX] using h 0 (by simp), ?_⟩
+        intro i hi
+        have := h (i + 1) (by simp at hi ⊢; omega)
+        simpa [getX] using this
+
+theorem advance_cand_length (fix : Bool) (V width : Nat) (ext : List (List XR)) (nonext : List XR)
+    (blank : XR) (st : State) (sel : Option (List Nat)) :
+    (advance fix V width ext nonext blank st sel).cand.length = st.nb.length * V + st.nb.length := by
+  unfold advance
+  extract_lets Kp ks vs K tm1 tot0 invalid inv nbP bP tot isP last nbExt0 bNon nbNon0 toMatch exact nbNon1 hasMatch nbExt nbNon flatExt cand sel' js ind isNon src extTok prefLens yNext lensNext nbNext bNext lastNext isPNext rem padRow
+  show cand.length = _
+  have hflat : flatExt.length = Kp * V := by
+    simp only [flatExt, nbExt, ks, vs]
+    exact length_flatten_map_range _ _ _
+  simp only [cand, List.length_append, hflat, ks, List.length_map, List.length_range]
+  rfl
+
+theorem advance_cand_sel_indep (fix : Bool) (V width : Nat) (ext : List (List XR)) (nonext : List XR)
+    (blank : XR) (st : State) (sel sel2 : Option (List Nat)) :
+    (advance fix V width ext nonext blank st sel).cand = (advance fix V width ext nonext blank st sel2).cand := rfl
+
+/-- repaired step with a legitimate `topk` answer: the total masses of the output slots are
+non-increasing along the beam (real prefixes first, `-inf` slots last). -/
+theorem advance_sorted (V width : Nat) (ext : List (List XR)) (nonext : List XR)
+    (blank : XR) (st : State) (s : List Nat)
+    (hnb : ∀ x ∈ st.nb, x.clean = true) (hb : ∀ x ∈ st.b, x.clean = true)
+    (hbl : blank.isFin = true)
+    (hk : isTopK (advance true V width ext nonext blank st (some s)).cand
+            (min width (st.nb.length * (V + 1))) s = true) :
+    let o := advance true V width ext nonext blank st (some s)
+    nonIncr ((List.range width).map (fun j => getX o.st.nb j + getX o.st.b j)) = true := by
+  intro o
+  have hcl := advance_cand_length true V width ext nonext blank st (some s)
+  simp only [isTopK, Bool.and_eq_true, beq_iff_eq, List.all_eq_true, decide_eq_true_eq] at hk
+  obtain ⟨⟨⟨⟨hlen, hlt⟩, _⟩, hni⟩, _⟩ := hk
+  rw [nonIncr_iff] at hni ⊢
+  intro i hi
+  simp only [List.length_map, List.length_range] at hi
+  have e0 : ∀ j, j < width → getX ((List.range width).map (fun j => getX o.st.nb j + getX o.st.b j)) j
+      = getX o.st.nb j + getX o.st.b j := fun j hj => getX_map_range _ _ _ hj
+  rw [e0 _ hi, e0 _ (by omega)]
+  by_cases h1 : i + 1 < min width (st.nb.length * (V + 1))
+  · have hsj : ∀ j, j < min width (st.nb.length * (V + 1)) → getN s j < st.nb.length * V + st.nb.length := by
+      intro j hj
+      rw [← hcl]
+      have hjs : j < s.length := by omega
+      have : getN s j = s[j] := by
+        unfold getN; rw [List.getD_eq_getElem?_getD, List.getElem?_eq_getElem hjs]; rfl
+      rw [this]
+      exact hlt _ (List.getElem_mem hjs)
+    have t1 := advance_total V width ext nonext blank st s hnb hb hbl (i + 1) h1 (hsj _ h1)
+    have t0 := advance_total V width ext nonext blank st s hnb hb hbl i (by omega) (hsj _ (by omega))
+    simp only at t1 t0
+    rw [t1, t0]
+    have := hni i (by simp; omega)
+    have m : ∀ j, j < s.length → getX (s.map (getX o.cand)) j = getX o.cand (getN s j) := by
+      intro j hj
+      unfold getX getN
+      rw [List.getD_eq_getElem?_getD, List.getD_eq_getElem?_getD (l := s), List.getElem?_map,
+        List.getElem?_eq_getElem hj]
+      rfl
+    rw [m _ (by omega), m _ (by omega)] at this
+    exact this
+  · have hf := advance_filler true V width ext nonext blank st (some s) (i + 1) (by omega) hi
+    simp only at hf
+    rw [hf.1, hf.2.1]
+    show XR.le XR.negInf _ = true
+    cases (getX o.st.nb i + getX o.st.b i) <;> rfl
+
+
+theorem finish_probs_of_sized (width : Nat) (st : State) (hs : Sized width st) :
+    (finish width st).probs = (List.range width).map (fun k => getX st.nb k + getX st.b k) := by
+  have hc : (width == 1 && width != 1) = false := by
+    cases h : width == 1 <;> simp [bne, h]
+  simp only [finish, hs.1, hc, Bool.false_eq_true, if_false]
+
+/-- the module on an element all of whose frames are valid: the reported probabilities are
+non-increasing, given that the last `topk` answer was legitimate -/
+theorem search_sorted (V width : Nat) (fs : List FrameIn) (f : FrameIn) (s : List Nat)
+    (hfs : ∀ g ∈ fs, FrameFin g) (hf : FrameFin f) (hsel : f.sel = some s)
+    (hk : isTopK (advance true V width f.ext f.nonext f.blank
+              (loop true V width (fs.length + 1) 0 initState fs).1 (some s)).cand
+            (min width ((loop true V width (fs.length + 1) 0 initState fs).1.nb.length * (V + 1))) s = true) :
+    nonIncr (search true V width (fs.length + 1) (fs ++ [f])).1.probs = true := by
+  have e : (search true V width (fs.length + 1) (fs ++ [f])).1
+      = finish width (loop true V width (fs.length + 1) 0 initState (fs ++ [f])).1 := by simp [search]
+  rw [e, loop_append]
+  have hc : CleanState (loop true V width (fs.length + 1) 0 initState fs).1 := by
+    apply loop_clean V width _ fs 0 initState hfs
+    constructor
+    · intro x hx
+      have : x = XR.zero := by simpa [initState] using hx
+      rw [this]; rfl
+    · intro x hx
+      have : x = XR.one := by simpa [initState] using hx
+      rw [this]; rfl
+  have hd : decide (0 + fs.length < fs.length + 1) = true := by simp
+  have hstep : (loop true V width (fs.length + 1) (0 + fs.length)
+        (loop true V width (fs.length + 1) 0 initState fs).1 [f]).1
+      = (advance true V width f.ext f.nonext f.blank
+          (loop true V width (fs.length + 1) 0 initState fs).1 (some s)).st := by
+    simp only [loop, hd, loopStep, if_true, hsel]
+  rw [hstep, finish_probs_of_sized width _ (advance_sized true V width _ _ _ _ _)]
+  exact advance_sorted V width f.ext f.nonext f.blank _ s hc.1 hc.2 hf.2.2 hk
+
 end PdtVerif.CtcPrefix
